@@ -124,9 +124,30 @@ def documented_line_edit(name, arg, inp, out):
     return None
 
 
+def strip_block_comments(t):
+    """C block comments removed, read from the language rule rather than from the pass: `/*` up to the next `*/` that starts
+    at least two characters later; an unterminated `/*` stays"""
+    out, i = [], 0
+    while i < len(t):
+        if t.startswith('/*', i):
+            j = t.find('*/', i + 2)
+            if j >= 0:
+                i = j + 2
+                continue
+        out.append(t[i])
+        i += 1
+    return ''.join(out)
+
+
+def strip_line_comments(t):
+    return '\n'.join(l[:l.index('//')] if '//' in l else l for l in t.split('\n'))
+
+
 def judge_candidate(name, arg, inp, out):
     if out == inp:
         return 'ok-candidate-equals-input'
+    if name == 'comments' and '\r' not in inp and out not in (strip_block_comments(inp), strip_line_comments(inp)):
+        return 'comments-candidate-is-neither-all-block-comments-nor-all-line-comments-removed'
     if (name, arg) in DELETION:
         if not is_subseq(out, inp):
             return 'deletion-pass-output-not-a-subsequence'
@@ -211,6 +232,11 @@ def gen_cases(ctx, deep=False):
     for name, arg in T.PASSES:
         for _ in range(n if name != 'peep' else max(6, n // 4)):
             cases.append((name, arg, T.gen_text(name, arg, rng)))
+    # many instances at once: the passes that edit every instance in one candidate, or count them (17 … 70 parts)
+    for name, arg in T.PASSES:
+        if name in ('blank', 'comments', 'includes', 'line_markers', 'lines', 'special', 'ints'):
+            for _ in range(3 if quick else 20):
+                cases.append((name, arg, T.gen_text(name, arg, rng, size=rng.choice([17, 18, 33, 40, 65, 70]))))
     return cases
 
 
